@@ -919,9 +919,11 @@ func main() {
 	if thorough {
 		ss = h.sessions(r3, 200, 12)
 		h.concurrent(r3, ss, 20000)
+		h.editSessions(cv.NewRand(4), 400)
 	} else {
 		ss = h.sessions(r3, 24, 9)
 		h.concurrent(r3, ss, 2500)
+		h.editSessions(cv.NewRand(4), 40)
 	}
 	h.finalChecks()
 	if err := h.w.Flush(); err != nil {
